@@ -930,14 +930,14 @@ def regenerate(ctx):
 def run(ctx, replay=None, proofs_ok=True):
     STATS.clear()
     if replay is not None:
-        if "kind" not in replay.get("case", {}):
-            return {"failures": [], "coverage": {"evaluations": 0, "distinct_nontrivial": 0, "rule": "replay of a translation obligation",
-                                                  "samples": [replay.get("case")]}}
-        cases = [replay["case"]]
+        # a replay of a translation obligation has no input case: the corpus is run instead
+        cases = [replay["case"]] if "kind" in replay.get("case", {}) else []
+        if not cases or not proofs_ok:
+            cases = cases + corpus()
     else:
         cases = corpus() + history_cases(ctx) + container_cases(ctx) + mergecfg_cases(ctx) + generate_cases(ctx) + e2e_cases(ctx)
     failures, stats = differential(ctx, cases, imports=IMPORTS, impl=impl, expr=expr, judge=judge, shrink=shrink,
-                                   nontrivial=nontrivial, per_file=80)
+                                   nontrivial=nontrivial, per_file=20)
     hist = {}
     for c in cases:
         if c["kind"] == "history":
